@@ -14,10 +14,26 @@ length that do not climb above the root.  The two escapes of the pinned snapshot
 Tie: `encsel` (full 3x4x3x4 table against the encoding the real imported sheet gets), `fetchout` (each behaviour
 against the real parser), `urlpath` / `rfcpath` (model and RFC side against util.urljoin and a string-level
 transcription of the RFC's pseudo-code).
-Partial: that the fetcher is the only I/O, that nested imports resolve against the imported sheet, and
-resolveImports' flattening are decided by the oracle on the implementation.
+Partial: that the fetcher is the only I/O and that nested imports resolve against the imported sheet are
+decided by the oracle on the implementation.
+
+resolveImports (second half of this file): `Model/Resolve.lean` transcribes `css_parser.resolveImports` with
+the in-order `CSSStyleSheet.add`, `_cleanNamespaces` and `CSSMediaRule.add` it runs through (tie: driver op
+`resolve`, harness/props/c20r.py, random import trees against the real call).  Proved for import trees of any
+depth and width: the body rules of the flat sheet are the document-order traversal of the tree
+(`resolve_order`), its @import rules are exactly the unloaded ones that can bubble up plus the loaded ones
+that are kept (`resolve_imports`, `resolve_unloaded_kept`), a media-restricted import ends in ONE @media
+block with its query (`resolve_media_wrapped`), no loaded import is left when every restricted import
+imports a plain sheet (`resolve_no_loaded_import_left`; otherwise the import is KEPT, as the docstring says),
+the flat sheet is arranged [one comment] @imports, @namespaces, the rest (`resolve_arrangement`) and is a
+fixed point when no loaded import is left (`resolve_idempotent`).  What the property text does not say
+and the code does is kept as kernel-checked witnesses: HierarchyRequestErr leaves resolveImports when a
+media-restricted import imports a sheet with an @import that stays (`restricted_nested_unloaded_raises`),
+NoModificationAllowedErr when namespace prefixes clash (`namespace_clash_raises`), a second run repeats the
+START comment of a kept import (`not_idempotent_when_kept`).
 -/
 import CssVerif.Proofs.Import
+import CssVerif.Proofs.ResolveNF
 namespace CssVerif.C20
 open CssVerif.Import
 
@@ -64,5 +80,271 @@ example : joinPath ["", "d", "e", "s.css"] ["..", "x", ".", "a.css"] = ["", "d",
 /-- where css_parser deliberately leaves the RFC: a reference climbing above the root keeps its `..` -/
 theorem above_root_differs :
     joinPath ["", "s.css"] ["..", "..", "a.css"] = ["..", "a.css"] ∧ rfcPath ["", "..", "..", "a.css"] = ["", "a.css"] := by decide
+
+
+/-! ## resolveImports -/
+
+open CssVerif.Resolve
+
+/-- **fuel**: the nesting depth of the loaded imports is enough, more changes nothing, and the model
+never runs out of it -/
+theorem resolve_fuel_enough (s : Sheet) (fuel : Nat) (h : heightL s ≤ fuel) :
+    resolve fuel s = resolveImports s ∧ resolveImports s ≠ .raised .fuel :=
+  ⟨resolve_fuel s fuel h, resolve_fuel_never s⟩
+
+/-- **(a) order**: the body rules (everything but @charset, @import, @namespace) of the flat sheet are,
+in order, the traversal `flatBody` of the import tree: nothing lost, nothing duplicated, nothing moved -/
+theorem resolve_order (s t : Sheet) (h : resolveImports s = .ok t) : t.filter Rule.isBody = flatBody s :=
+  (resolve_ok s t h).2.2.1
+
+/-- what `flatBody` is: document order; a loaded @import is replaced by its START comment followed by —
+nothing if it is kept as a rule, else the body of its own flat sheet, in ONE @media block if restricted -/
+theorem flatBody_def (r : Rule) (rs : Sheet) : flatBody [] = [] ∧ flatBody (r :: rs) =
+    (match r with
+     | .charset _ => [] | .ns _ _ => [] | .imp _ _ none => []
+     | .imp i q (some sub) => .start i ::
+        (if kept q sub then [] else if q = 0 then flatBody sub else [.media q (flatBody sub)])
+     | r => [r]) ++ flatBody rs := ⟨flatBody_nil, flatBody_cons r rs⟩
+
+/-- when a loaded @import stays a rule: the nested call raised HierarchyRequestErr, or the import is
+media-restricted and its flat sheet holds something else than comments, style rules and @imports -/
+theorem kept_def (q : Nat) (sub : Sheet) :
+    kept q sub = (raisesHierarchy sub || (q != 0 && flatHard sub)) ∧
+    flatHard sub = ((sumL sub).ns || (flatBody sub).any (fun x => !x.canWrap)) := ⟨rfl, rfl⟩
+
+/-- what cannot live in the @media block of a restricted import keeps the import: @namespace, @font-face,
+@page, an unknown at-rule, an @media block; the imported sheet's @charset is dropped and does not count;
+with media `all` nothing is kept for these reasons -/
+example : kept 5 [.ns 0 1] = true ∧ kept 5 [.block .fontface 1] = true ∧ kept 5 [.block .page 1] = true ∧
+    kept 5 [.block .unknown 1] = true ∧ kept 5 [.media 2 []] = true ∧
+    kept 5 [.charset 1, .comment 1, .style 1 []] = false ∧ kept 0 [.ns 0 1, .block .page 1, .media 2 []] = false ∧
+    resolveImports [.imp 1 0 (some [.charset 1, .ns 0 1, .block .page 1]), .style 9 []] =
+      .ok [.ns 0 1, .start 1, .block .page 1, .style 9 []] := ⟨rfl, rfl, rfl, rfl, rfl, rfl, rfl, rfl⟩
+
+/-- (a) for trees in which every import can be inlined: the naive traversal (every loaded import expanded
+in place, restricted ones inside @media) -/
+theorem resolve_order_inlinable (s t : Sheet) (h : resolveImports s = .ok t) (hi : inlinableL s = true) :
+    t.filter Rule.isBody = expandL s := by
+  rw [resolve_order s t h]; exact (inlinableL_sum s hi).2.1
+
+/-- non-vacuity of `inlinableL`: a restricted import of a sheet that imports a plain sheet -/
+example : inlinableL [.imp 1 5 (some [.charset 1, .imp 2 0 (some [.style 1 []]), .comment 3]), .imp 4 0 none, .style 9 []] = true ∧
+    resolveImports [.imp 1 5 (some [.charset 1, .imp 2 0 (some [.style 1 []]), .comment 3]), .imp 4 0 none, .style 9 []] =
+      .ok [.start 1, .imp 4 0 none, .media 5 [.start 2, .style 1 [], .comment 3], .style 9 []] := ⟨rfl, rfl⟩
+
+/-- **(b) the @import rules of the flat sheet** are exactly `flatImports`: -/
+theorem resolve_imports (s t : Sheet) (h : resolveImports s = .ok t) : t.filter Rule.isImport = flatImports s :=
+  (resolve_ok s t h).2.1
+
+/-- an unloaded @import stays; a loaded one stays if kept, hands up the @imports of its own flat sheet if
+its media is `all` (an unloaded import inside a loaded sheet thus becomes an @import of the flat sheet, its
+href unchanged), and has none to hand up if it is restricted: -/
+theorem flatImports_def (r : Rule) (rs : Sheet) : flatImports (r :: rs) =
+    (match r with
+     | .imp i q none => [.imp i q none]
+     | .imp i q (some sub) =>
+        if kept q sub then [.imp i q (some sub)] else if q = 0 then flatImports sub else []
+     | _ => []) ++ flatImports rs := flatImports_cons r rs
+
+/-- **(b) every unloaded @import of the sheet is still an @import rule of the flat sheet**, in the same order -/
+theorem resolve_unloaded_kept (s t : Sheet) (h : resolveImports s = .ok t) :
+    (s.filter Rule.isUnloaded).Sublist t :=
+  (unloaded_sublist_flatImports s).trans (by rw [← resolve_imports s t h]; exact List.filter_sublist)
+
+/-- … and they are moved to the front: the flat sheet is at most one comment, the @imports, the
+@namespace rules (no two with the same prefix or the same URI), then everything else; no @charset -/
+theorem resolve_arrangement (s t : Sheet) (h : resolveImports s = .ok t) :
+    (∃ c I P B, t = c ++ I ++ nsRules P ++ B ∧ (c = [] ∨ ∃ x, c = [x] ∧ x.isComment = true ∧ I ≠ []) ∧
+      (∀ x ∈ I, x.isImport = true) ∧ Inj P ∧ (∀ x ∈ B, x.isBody = true)) ∧
+    (∀ x ∈ t, x.isCharset = false) :=
+  ⟨resolve_NF _ s t h, NF_noCharset t (resolve_NF _ s t h)⟩
+
+/-- the real sheet `/*c0*/ @import "a"; @import "u" (not loaded); x{}`: the unloaded import is moved in
+front of the START comment, behind the leading comment -/
+theorem unloaded_moves_to_front :
+    resolveImports [.comment 0, .imp 1 0 (some [.style 1 []]), .imp 2 0 none, .style 9 []] =
+      .ok [.comment 0, .imp 2 0 none, .start 1, .style 1 [], .style 9 []] := rfl
+
+/-- HierarchyRequestErr leaves `resolveImports` exactly as `raisesHierarchy` says -/
+theorem resolve_hierarchy_outcome (s : Sheet) :
+    (∀ t, resolveImports s = .ok t → raisesHierarchy s = false) ∧
+    (resolveImports s = .raised .hierarchy → raisesHierarchy s = true) :=
+  ⟨fun t h => (resolve_ok s t h).1, resolve_hierarchy s⟩
+
+theorem raisesHierarchy_def (r : Rule) (rs : Sheet) : raisesHierarchy (r :: rs) =
+    ((match r with
+      | .imp _ q (some sub) => !kept q sub && q != 0 && !(flatImports sub).isEmpty
+      | _ => false) || raisesHierarchy rs) := raisesHierarchy_cons r rs
+
+theorem raisesHierarchy_of_mem : ∀ (s : Sheet) (i q : Nat) (sub : Sheet), Rule.imp i q (some sub) ∈ s →
+    kept q sub = false → q ≠ 0 → flatImports sub ≠ [] → raisesHierarchy s = true
+  | [], _, _, _, h, _, _, _ => by simp at h
+  | r :: rs, i, q, sub, h, hk, hq, hu => by
+    rw [raisesHierarchy_cons]
+    rcases List.mem_cons.1 h with h | h
+    · subst h
+      have : (flatImports sub).isEmpty = false := by cases hf : flatImports sub <;> simp_all
+      simp [hk, hq, this]
+    · rw [raisesHierarchy_of_mem rs i q sub h hk hq hu]; simp
+
+/-- **what happens to an unloaded @import inside a media-restricted loaded import**: the call does not
+return (HierarchyRequestErr from `CSSMediaRule.add`; one level further down the enclosing import is kept) -/
+theorem restricted_nested_unloaded_raises (s : Sheet) (i q : Nat) (sub : Sheet)
+    (hm : Rule.imp i q (some sub) ∈ s) (hq : q ≠ 0) (hk : kept q sub = false) (hu : flatImports sub ≠ []) :
+    ∀ t, resolveImports s ≠ .ok t := by
+  intro t h
+  have := (resolve_ok s t h).1
+  rw [raisesHierarchy_of_mem s i q sub hm hk hq hu] at this
+  simp at this
+
+/-- the real sheet `@import "b.css" print;` with b.css = `@import "n.css" (not loaded); b{}` -/
+theorem restricted_nested_unloaded_witness :
+    resolveImports [.imp 1 5 (some [.imp 2 0 none, .style 2 []]), .style 9 []] = .raised .hierarchy ∧
+    -- one level down the exception is caught and the whole import is kept
+    resolveImports [.imp 0 0 (some [.imp 1 5 (some [.imp 2 0 none, .style 2 []]), .style 1 []]), .style 9 []] =
+      .ok [.start 0, .imp 0 0 (some [.imp 1 5 (some [.imp 2 0 none, .style 2 []]), .style 1 []]), .style 9 []] := ⟨rfl, rfl⟩
+
+/-- **(c) media**: a loaded import that is not kept contributes, at its place, its START comment and then
+— if it is media-restricted — ONE @media block with its query holding the whole body of its flat sheet
+(only comments and style rules, and that flat sheet has no @import); if its media is `all`, the body of
+its flat sheet unwrapped, and its @imports join the @imports of the flat sheet -/
+theorem resolve_media_wrapped (pre post sub t : Sheet) (i q : Nat)
+    (h : resolveImports (pre ++ .imp i q (some sub) :: post) = .ok t) (hk : kept q sub = false) :
+    (q ≠ 0 → t.filter Rule.isBody = flatBody pre ++ .start i :: .media q (flatBody sub) :: flatBody post ∧
+      flatImports sub = [] ∧ (flatBody sub).any (fun x => !x.canWrap) = false ∧
+      t.filter Rule.isImport = flatImports pre ++ flatImports post) ∧
+    (q = 0 → t.filter Rule.isBody = flatBody pre ++ .start i :: (flatBody sub ++ flatBody post) ∧
+      t.filter Rule.isImport = flatImports pre ++ (flatImports sub ++ flatImports post)) := by
+  obtain ⟨hr, hi, hb, _, _⟩ := resolve_ok _ t h
+  rw [raisesHierarchy_append, raisesHierarchy_cons, Bool.or_eq_false_iff, Bool.or_eq_false_iff] at hr
+  have hb' : t.filter Rule.isBody = flatBody (pre ++ .imp i q (some sub) :: post) := hb
+  have hi' : t.filter Rule.isImport = flatImports (pre ++ .imp i q (some sub) :: post) := hi
+  rw [flatBody_append, flatBody_cons] at hb'
+  rw [flatImports_append, flatImports_cons] at hi'
+  simp only [hk, Bool.false_eq_true, if_false] at hb' hi'
+  constructor
+  · intro hq
+    have hr2 := hr.2.1
+    simp only [hk, Bool.not_false, Bool.true_and] at hr2
+    have hq' : (q != 0) = true := by simpa using hq
+    rw [hq', Bool.true_and] at hr2
+    have hemp : flatImports sub = [] := by
+      cases hf : flatImports sub with
+      | nil => rfl
+      | cons a l => rw [hf] at hr2; simp at hr2
+    have hhard : flatHard sub = false := by
+      have := hk
+      rw [kept_iff, Bool.or_eq_false_iff, hq', Bool.true_and] at this
+      exact this.2
+    rw [flatHard_eq, Bool.or_eq_false_iff] at hhard
+    simp only [hq, if_false] at hb' hi'
+    exact ⟨by rw [hb']; simp, hemp, hhard.2, by rw [hi']; simp⟩
+  · intro hq
+    simp only [hq, if_true] at hb' hi'
+    exact ⟨by rw [hb']; simp, by rw [hi']⟩
+
+/-- the block of a restricted import is the whole flat sheet of the imported sheet -/
+theorem wrapped_is_flat_sheet (sub t' : Sheet) (q : Nat) (hq : q ≠ 0) (hk : kept q sub = false)
+    (hu : flatImports sub = []) (h : resolveImports sub = .ok t') : t' = flatBody sub := by
+  obtain ⟨_, hi, hb, hn, hc⟩ := resolve_ok sub t' h
+  have hq' : (q != 0) = true := by simpa using hq
+  rw [kept_iff, Bool.or_eq_false_iff, hq', Bool.true_and, flatHard_eq, Bool.or_eq_false_iff] at hk
+  rw [← hb]
+  symm
+  unfold body
+  rw [List.filter_eq_self]
+  intro x hx
+  have h1 : x.isImport = false := by
+    cases hxi : x.isImport with
+    | false => rfl
+    | true =>
+      have : x ∈ imports t' := List.mem_filter.2 ⟨hx, hxi⟩
+      rw [hi, hu] at this; simp at this
+  have h2 : x.isNs = false := by
+    have := hk.2.1 ▸ hn
+    simp only [hasNs, List.any_eq_false] at this
+    simpa using this x hx
+  have h3 : x.isCharset = false := by
+    simp only [hasCharset, List.any_eq_false] at hc
+    simpa using hc x hx
+  simp [Rule.isBody, h1, h2, h3]
+
+example : kept 5 [.comment 1, .style 1 []] = false ∧ flatImports [.comment 1, .style 1 []] = [] ∧
+    resolveImports [.comment 1, .style 1 []] = .ok (flatBody [.comment 1, .style 1 []]) := ⟨rfl, rfl, rfl⟩
+
+/-- non-vacuity of (c), and nested restricted imports: the inner import becomes an @media block, which
+makes the outer one a kept import -/
+example : kept 5 [.imp 2 0 (some [.style 1 []]), .comment 3] = false ∧
+    kept 5 [.imp 2 6 (some [.style 1 []])] = true ∧
+    resolveImports [.imp 1 5 (some [.imp 2 6 (some [.style 1 []])]), .style 9 []] =
+      .ok [.start 1, .imp 1 5 (some [.imp 2 6 (some [.style 1 []])]), .style 9 []] := ⟨rfl, rfl, rfl⟩
+
+/-- a kept import stays an @import rule of the flat sheet -/
+theorem kept_mem_flatImports : ∀ (s : Sheet) (i q : Nat) (sub : Sheet), Rule.imp i q (some sub) ∈ s →
+    kept q sub = true → Rule.imp i q (some sub) ∈ flatImports s
+  | [], _, _, _, h, _ => by simp at h
+  | r :: rs, i, q, sub, h, hk => by
+    rw [flatImports_cons]
+    rcases List.mem_cons.1 h with h | h
+    · subst h; simp [hk]
+    · exact List.mem_append_right _ (kept_mem_flatImports rs i q sub h hk)
+
+theorem resolve_kept_stays (s t : Sheet) (i q : Nat) (sub : Sheet) (h : resolveImports s = .ok t)
+    (hm : Rule.imp i q (some sub) ∈ s) (hk : kept q sub = true) : Rule.imp i q (some sub) ∈ t := by
+  have := kept_mem_flatImports s i q sub hm hk
+  rw [← resolve_imports s t h] at this
+  exact (List.mem_filter.1 this).1
+
+/-- **(d) no loaded import is left** when every media-restricted loaded import (at any depth) imports a
+plain sheet: @charset, comments, style rules and loaded unrestricted imports of plain sheets -/
+theorem resolve_no_loaded_import_left (s t : Sheet) (h : resolveImports s = .ok t) (hi : inlinableL s = true) :
+    ∀ r ∈ t, r.isLoaded = false := by
+  intro r hr
+  cases hl : r.isLoaded with
+  | false => rfl
+  | true =>
+    have himp : r.isImport = true := by cases r <;> simp [Rule.isLoaded] at hl <;> rfl
+    have : r ∈ flatImports s := by
+      rw [← resolve_imports s t h]; exact List.mem_filter.2 ⟨hr, himp⟩
+    have hu := List.all_eq_true.1 (inlinableL_sum s hi).2.2 r this
+    cases r <;> simp [Rule.isLoaded] at hl
+    rename_i i q tg
+    cases tg <;> simp [Rule.isUnloaded] at hu hl
+
+/-- (d) needs the hypothesis: a restricted import of a sheet with @page is kept ("In these cases the
+@import rule is kept as in the original sheet", docstring) -/
+theorem loaded_import_left_witness :
+    inlinableL [.imp 1 5 (some [.style 2 [], .block .page 1]), .style 9 []] = false ∧
+    resolveImports [.imp 1 5 (some [.style 2 [], .block .page 1]), .style 9 []] =
+      .ok [.start 1, .imp 1 5 (some [.style 2 [], .block .page 1]), .style 9 []] := ⟨rfl, rfl⟩
+
+/-- **(e) idempotence**: a flat sheet without a loaded import is a fixed point -/
+theorem resolve_idempotent (s t : Sheet) (h : resolveImports s = .ok t) (hl : ∀ r ∈ t, r.isLoaded = false) :
+    resolveImports t = .ok t := Resolve.resolve_idempotent s t h hl
+
+/-- non-vacuity of (e): a flat sheet with an unloaded import, a namespace and a wrapped import -/
+example : resolveImports [.comment 0, .imp 1 5 (some [.style 1 []]), .imp 2 0 none, .ns 1 1, .style 9 [1]] =
+      .ok [.comment 0, .imp 2 0 none, .ns 1 1, .start 1, .media 5 [.style 1 []], .style 9 [1]] ∧
+    resolveImports [.comment 0, .imp 2 0 none, .ns 1 1, .start 1, .media 5 [.style 1 []], .style 9 [1]] =
+      .ok [.comment 0, .imp 2 0 none, .ns 1 1, .start 1, .media 5 [.style 1 []], .style 9 [1]] := ⟨rfl, rfl⟩
+
+theorem resolve_idempotent_inlinable (s t : Sheet) (h : resolveImports s = .ok t) (hi : inlinableL s = true) :
+    resolveImports t = .ok t := Resolve.resolve_idempotent s t h (resolve_no_loaded_import_left s t h hi)
+
+/-- (e) fails with a kept import: the second run writes its START comment again -/
+theorem not_idempotent_when_kept :
+    resolveImports [.imp 1 5 (some [.style 2 [], .block .page 1]), .style 9 []] =
+      .ok [.start 1, .imp 1 5 (some [.style 2 [], .block .page 1]), .style 9 []] ∧
+    resolveImports [.start 1, .imp 1 5 (some [.style 2 [], .block .page 1]), .style 9 []] =
+      .ok [.start 1, .imp 1 5 (some [.style 2 [], .block .page 1]), .start 1, .style 9 []] := ⟨rfl, rfl⟩
+
+/-- @namespace rules of an imported sheet (media `all`) join the target's; a declaration that clashes with
+an earlier one (same prefix or same URI) displaces it, and if the displaced one is in use
+NoModificationAllowedErr leaves resolveImports: `@import "a"; @namespace p "u2"; p|x{}` with
+a = `@namespace p "u1"; p|y{}`; unused, the imported declaration is dropped silently -/
+theorem namespace_clash_raises :
+    resolveImports [.imp 1 0 (some [.ns 1 1, .style 1 [1]]), .ns 1 2, .style 2 [2]] = .raised .noModification ∧
+    resolveImports [.imp 1 0 (some [.ns 1 1, .style 1 []]), .ns 1 2, .style 2 [2]] =
+      .ok [.ns 1 2, .start 1, .style 1 [], .style 2 [2]] := ⟨rfl, rfl⟩
 
 end CssVerif.C20
